@@ -479,6 +479,14 @@ class Model:
                     if d is not fn.cls:
                         for k in d.mro():
                             out |= self.field_of(k, e.attr)
+            if isinstance(e.value, ast.Name) and e.value.id == 'self' and fn.cls is not None and '_' in e.attr and not any(self.concrete(t_) for t_ in out) \
+                    and not any(t_.startswith(('ext:', 'builtin:')) for t_ in out):
+                # last resort, for call resolution only: a field nothing types (its value comes out of a factory table, a partial, ...) that is named after an
+                # abstract base of the package (order_sizer -> OrderSizer, fee_model -> FeeModel) holds one of that base's implementations
+                cname = ''.join(part[:1].upper() + part[1:] for part in e.attr.strip('_').split('_'))
+                c = self.cls(cname) if cname else None
+                if c is not None and len(self.subclasses(c)) > 1:
+                    out.add(c.name)
             return out
         if isinstance(e, ast.Subscript):
             out = set()
